@@ -1,6 +1,7 @@
 package props
 
 import (
+	"os"
 	"bytes"
 	"encoding/json"
 	"fmt"
@@ -387,6 +388,46 @@ func c04Work(c *mc.Ctx) {
 				rec(append([]byte(nil), alphaToks[i0]...), 1)
 			})
 		}
+		// (iv) amplification: one field occurring many times. A big occurrence followed by (or
+		// following, or interleaved with) many minimal occurrences of the same field: the work done
+		// must stay linear in the input length, i.e. no per-occurrence cost that depends on what an
+		// EARLIER occurrence left behind (capacity, map size). Decided by the deterministic work
+		// counter (library function entries + loop iterations), not by the clock.
+		if tg.model != nil && tg.model.K == ref.KStruct {
+			big, many := 600, 600
+			if c.Tier == "thorough" {
+				big, many = 3000, 3000
+			}
+			for _, f := range tg.model.Fields {
+				f := f
+				bv, ok := ref.Big(f.T, big)
+				if !ok {
+					continue
+				}
+				block("amplify", fmt.Sprintf("field %d (%s): %d elements and %d minimal occurrences", f.Index, f.T, big, many), func(emit func([]byte)) {
+					// the field on its own (a one-field struct with the same index and option)
+					bigEnc := ref.EncTop(tg.cfg, ref.Struct(f), ref.V{E: []ref.V{bv}}).Bytes()
+					if len(bigEnc) == 0 {
+						return
+					}
+					tagLen := 1
+					if f.Index >= 16 {
+						tagLen = 2
+					}
+					small := append(append([]byte(nil), bigEnc[:tagLen]...), 0x00)
+					other := []byte{0x08, 0x01} // field 1 is a varint in every model target
+					var smalls, mixed []byte
+					for i := 0; i < many; i++ {
+						smalls = append(smalls, small...)
+						mixed = append(append(mixed, small...), other...)
+					}
+					emit(append(append([]byte(nil), bigEnc...), smalls...))
+					emit(append(append([]byte(nil), smalls...), bigEnc...))
+					emit(append(append([]byte(nil), bigEnc...), mixed...))
+					emit(append(append(append([]byte(nil), bigEnc...), smalls...), bigEnc...))
+				})
+			}
+		}
 		_ = unsafe.Pointer(nil)
 	}
 }
@@ -476,9 +517,15 @@ func (r *c04Run) one(kind string, in []byte) {
 			}
 			if pi == 0 {
 				// work: library function entries during the call, linear in the input length
+				if os.Getenv("VERIF_C04_DEBUG") != "" && kind == "amplify" {
+					if f, err := os.OpenFile(os.Getenv("VERIF_C04_DEBUG"), os.O_APPEND|os.O_CREATE|os.O_WRONLY, 0o644); err == nil {
+						fmt.Fprintf(f, "AMPLIFY %s %s n=%d work=%d res=%.40s in=%.24s\n", r.tg.name, path, n, sched.Work-w0, res[pi], hx(in))
+						f.Close()
+					}
+				}
 				if w := sched.Work - w0; w > uint64(workPerByte*(n+1)+workSlack) {
 					c.Violation(pre+"work-not-linear-in-input", fmt.Sprintf("input %s (%d bytes): %d library function calls, bound %d", hx(in), n, w, workPerByte*(n+1)+workSlack))
-				} else if q := int64(w) * 100 / int64(n+1); q > r.maxWork {
+				} else if q := int64(w) * 100 / int64(n+1); n >= 64 && q > r.maxWork {
 					r.maxWork = q
 				}
 				metrics.Read(r.samples)
